@@ -7,6 +7,7 @@
   (shown by `#check` in the audit).  Beside each theorem: a concrete input meeting its hypotheses.
 -/
 import PdbVerif.Proofs.FloatMargin
+import PdbVerif.Proofs.GenContacts
 
 namespace Props.C05K
 open Proofs.FloatMargin
@@ -64,5 +65,69 @@ example : n2 9995026 (-9999999) 1234 10000000 (-9995065) 6047 = 8500 ^ 2 + 1 := 
 
 /-- the margin at the default cutoff, in Å²: below 10⁻¹⁰ -/
 example : pdbMargin (17 / 2) < 1 / 10 ^ 10 := by rw [pdbMargin_eq]; norm_num
+
+end Props.C05K
+
+/-! --------------------------------------------------------------------------------------------------------------------
+  APPENDED SECTION — translated contact loop (tie #1 for C05).
+  `GenC.get_contact_atoms` (Gen/Contacts.lean) is regenerated from `interface.get_contact_atoms` on every run by
+  py/translate_ext_contacts.py (statement by statement: chain selection, the unknown-chain ValueError, the per-chain extraction,
+  `itertools.combinations`, the atom loop with the distance test as the one primitive `Np.withinCutoff`, the hydrogen `continue`,
+  the backbone conditions, the `pairs` comprehension, `setdefault(..).extend`, the `+=` accumulations, `sorted(set(..))`, the
+  `extend_to_residue` loop, the `return_contact_pairs` switch).  The theorems below say that the regenerated definition IS the hand
+  model `Model.contactAtoms` the theorems of Props/C05.lean are about — for every table and every argument combination — so those
+  theorems hold of the code as it is now.  Statements are those of Proofs/GenContacts.lean, restated through `type_of%`.
+  (The binary64 evaluation of the distance test is the subject of the section above: `contact_decision_eq`.)
+-------------------------------------------------------------------------------------------------------------------- -/
+
+namespace Props.C05K
+open Proofs.GenContacts
+
+/-- `self.backbone_atoms` of the source = the names the model uses -/
+theorem genc_backbone_atoms_eq_model : type_of% @Proofs.GenContacts.genc_backbone_atoms_eq_model := @Proofs.GenContacts.genc_backbone_atoms_eq_model
+/-- the column types the translator read from `pdb2sql_base.col` -/
+theorem genc_col_types : type_of% @Proofs.GenContacts.genc_col_types := @Proofs.GenContacts.genc_col_types
+/-- `get_chains()` -/
+theorem genc_get_chains_eq_model : type_of% @Proofs.GenContacts.genc_get_chains_eq_model := @Proofs.GenContacts.genc_get_chains_eq_model
+/-- `get_contact_atoms(...)` = `Model.contactAtoms`: same dictionary, same key order, same lists, same exception -/
+theorem genc_get_contact_atoms_eq_model : type_of% @Proofs.GenContacts.genc_get_contact_atoms_eq_model := @Proofs.GenContacts.genc_get_contact_atoms_eq_model
+/-- `contacts_two_chain_returned` of Props/C05.lean, for the generated function -/
+theorem genc_contact_atoms_two_chain : type_of% @Proofs.GenContacts.genc_contact_atoms_two_chain := @Proofs.GenContacts.genc_contact_atoms_two_chain
+/-- `unknown_chain_rejected` of Props/C05.lean, for the generated function -/
+theorem genc_unknown_chain_rejected : type_of% @Proofs.GenContacts.genc_unknown_chain_rejected := @Proofs.GenContacts.genc_unknown_chain_rejected
+/-- every permutation is an admissible iteration order of a set (the hypothesis `SetOrderOK` of the theorems above) -/
+theorem setOrderOK_of_perm : type_of% @Proofs.GenContacts.setOrderOK_of_perm := @Proofs.GenContacts.setOrderOK_of_perm
+/-- the accessor the translation uses for `self.get(cols, chainID=c)` is the C03 selection (`Spec.selected`) with that condition -/
+theorem select_chain_is_c03 : type_of% @Proofs.GenContacts.select_chain_is_c03 := @Proofs.GenContacts.select_chain_is_c03
+
+/-! ### non-vacuity: the generated function evaluated on a three-chain structure (kernel evaluation, exact rationals) -/
+
+def gAtom (name res ch : String) (seq : Int) (x y z : Rat) : Py.Atom :=
+  { serial := 0, name := name.toList, altLoc := [], resName := res.toList, chainID := ch.toList, resSeq := seq, iCode := [],
+    x := x, y := y, z := z, occ := 1, temp := 0, element := [], model := 0 }
+
+/-- atom 0 (chain A) is exactly 5 A from atom 1 (chain B) and from atom 3 (chain C); atom 2 is a hydrogen of B a little closer;
+    atom 4 (chain C) is far away; atom 5 (chain B) is 5.25 A away -/
+def gEx3 : List Py.Atom :=
+  [ gAtom "CA" "LYS" "A" 5 0 0 0, gAtom "CA" "ALA" "B" 1 3 4 0, gAtom "HA" "ALA" "B" 1 3 (15/4) 0,
+    gAtom "N"  "GLY" "C" 5 0 (-3) (-4), gAtom "CB" "GLY" "C" 7 40 0 0, gAtom "O"  "ALA" "B" 2 (13/4) 4 0 ]
+
+def gArgs : Model.ContactArgs :=
+  { cutoff := 5, allchains := true, chain1 := "A".toList, chain2 := "B".toList, extend := false, bb := false, noH := true, retPairs := true }
+
+example : SetOrderOK id := setOrderOK_id
+/-- all chains, excludeH, pair map: the hub atom 0 lists its partners in chains B and C (both exactly on the cutoff) -/
+example : (match GenC.get_contact_atoms id gEx3 5 true "A".toList "B".toList false false true true with
+    | .ok (.inl d) => d == [(0, [1, 3])] | _ => false) = true := by decide +kernel
+/-- all chains, per-chain lists (here with the hydrogen 2 admitted, the other iteration order of sets, and residue extension) -/
+example : (match GenC.get_contact_atoms List.reverse gEx3 5 true "A".toList "B".toList true false false false with
+    | .ok (.inr d) => d == [("A".toList, [0]), ("B".toList, [1, 2]), ("C".toList, [3])] | _ => false) = true := by decide +kernel
+/-- an unknown chain: ValueError -/
+example : (match GenC.get_contact_atoms id gEx3 5 false "A".toList "Q".toList false false false false with
+    | .error .valueError => true | _ => false) = true := by decide +kernel
+/-- … and that is what the model gives (an instance of the theorem, and the model evaluated) -/
+example : GenC.get_contact_atoms id gEx3 5 true "A".toList "B".toList false false true true = (Model.contactAtoms gEx3 gArgs).map outSum :=
+  genc_get_contact_atoms_eq_model id setOrderOK_id gEx3 gArgs
+example : (match Model.contactAtoms gEx3 gArgs with | .ok (.pairs d) => d == [(0, [1, 3])] | _ => false) = true := by decide +kernel
 
 end Props.C05K
